@@ -130,6 +130,78 @@ def single_reader(chk, binp):
         stack.close()
 
 
+def shutdown_during_upload(chk, binp, ctx_unused=None):
+    """the shutdown signal arrives while a file of two batches is being uploaded (the host is slow to answer the second one): no
+    event of that file reaches the host twice"""
+    fab = fabric.Fabric("127.0.0.1", 0)
+    sd = vlib.scratch_dir("c18c")
+    evdir = os.path.join(sd, "events")
+    os.makedirs(evdir)
+    exe = os.path.join(sd, "harness")
+    shutil.copyfile(binp, exe); os.chmod(exe, 0o755)
+    json.dump({"logFolder": sd + "/logs", "eventFolder": evdir, "latchKeyFolder": sd + "/keys", "monitorIntervalInSeconds": 60,
+               "pollKeyStatusIntervalInSeconds": 15, "hostGAPluginSupport": 1, "ebpfProgramName": "e.o"}, open(sd + "/proxy-agent.json", "w"))
+    r, w = os.pipe()
+    proc = subprocess.Popen([exe], stdin=subprocess.PIPE, stdout=subprocess.DEVNULL, stderr=open(sd + "/err.txt", "wb"), pass_fds=(w,), cwd=sd,
+                            env=dict(os.environ, VERIF_ENGINE="telemetry", VERIF_OUT=f"/dev/fd/{w}", VERIF_EVENT_DIR=evdir,
+                                     VERIF_HOST_IP=fab.ip, VERIF_HOST_PORT=str(fab.port), VERIF_INTERVAL_MS="60"))
+    os.close(w)
+    fo = os.fdopen(r)
+    try:
+        if not fo.readline().startswith("ready"):
+            chk.broken.append({"kind": "harness", "name": "telemetry engine (shutdown stage)", "why": open(sd + "/err.txt").read()[-300:]})
+            return
+        posts = []
+
+        def gate(req):
+            if req["method"] == "POST" and "telemetrydata" in req["target"]:
+                posts.append(time.time())
+                if len(posts) >= 2:
+                    time.sleep(1.2)          # the second batch and everything after it is answered slowly
+        fab.gate = gate
+        rng = vlib.Rng(chk.seed + 18)
+        evs = [gen_event(rng, 30000) for _ in range(4)]
+        for i, e in enumerate(evs):
+            e["TaskName"] = "shutdown-%d" % i
+        tmp = os.path.join(evdir, "000000000001.json.part")
+        json.dump(evs, open(tmp, "w"))
+        os.rename(tmp, os.path.join(evdir, "000000000001.json"))
+        end = time.time() + 10
+        while len(posts) < 2 and time.time() < end:
+            time.sleep(0.02)
+        proc.stdin.write(b"cancel\n"); proc.stdin.flush()
+        fo.readline()
+        time.sleep(0.3)
+        with fab.lock:
+            got = list(fab.telemetry)
+        from collections import Counter
+        seen = Counter()
+        for b, st in got:
+            if st != 200:
+                continue
+            try:
+                for p in parse_doc(b):
+                    seen[dict(p).get("TaskName")] += 1
+            except Exception:
+                pass
+        chk.case(nontrivial_key=("shutdown-during-upload", len(got), tuple(sorted(seen.items()))))
+        chk.count("shutdown_during_upload")
+        dup = {k: n for k, n in seen.items() if n > 1}
+        d = {"file": "4 events of 30000 bytes (two batches)", "posts_accepted": len(got), "shutdown": "signalled while the second batch was waiting for its answer",
+             "deliveries_per_event": dict(seen)}
+        if len(posts) < 2:
+            chk.disagreement("telemetry-batches", d, "two batches posted", len(posts))
+        elif dup:
+            chk.violation("an event was uploaded more often than it was written (or its text was altered)", d, expected="each event at most once", observed=dup)
+    finally:
+        try:
+            proc.stdin.write(b"quit\n"); proc.stdin.flush(); proc.wait(timeout=5)
+        except Exception:
+            proc.kill()
+        fab.close()
+        shutil.rmtree(sd, ignore_errors=True)
+
+
 def run(chk):
     if not e2e.in_netns():
         e2e.reexec_in_netns()
@@ -166,15 +238,32 @@ def run(chk):
                "cid": "374188df-b0a2-456a-a7b2-83f28b18d36f", "tenant": "7d2798bb72a0413d9a60b355277df726", "role": "TenantAdminApi.Worker",
                "roleinst": "TenantAdminApi.Worker_IN_0", "sub": "sub-verif", "rg": "rg-verif", "vm": "02aab8a4-74ef-476e-8182-f6d2ba4166a6",
                "imageorigin": 1}
-        nsets = 12 if chk.tier == "quick" else 600
+        nsets = int(os.environ.get("VERIF_C18_NSETS") or (12 if chk.tier == "quick" else 600))
         model_lines, expect = [], []
         seq = 0
         for s in range(nsets):
             files = [gen_file(rng, chk.tier) for _ in range(rng.rand_range(1, 4))]
             plan = []
             slow = (s == 3) if chk.tier == "quick" else (s % 25 == 3)
+            if s == 1:
+                # events too large for any batch whose text is multi-byte throughout (every byte offset of the rendered event falls
+                # inside a character for one of the three prefixes): they are dropped, the others of the file delivered
+                files = []
+                for k in range(3):
+                    evs = [gen_event(rng, 10) for _ in range(2)]
+                    big = gen_event(rng, 10)
+                    big["Message"] = "a" * k + "\u65e5" * 23000
+                    evs.insert(1, big)
+                    files.append(evs)
+                chk.count("oversize_events_multibyte", 3)
+            giveup = chk.tier != "quick" and s == 7
             if slow:
                 plan = [500]              # one failed upload: retried after 15 s
+            if giveup:
+                # a file of two batches: the first is accepted, the second fails all five attempts (the reader gives it up after 75 s);
+                # the sets that follow show whether anything of that file is sent again
+                files = [[gen_event(rng, 30000) for _ in range(4)]]
+                plan = [200] + [500] * 5
             with fab.lock:
                 fab.telemetry = []
                 fab.telemetry_plan = list(plan)
@@ -192,7 +281,7 @@ def run(chk):
                 open(os.path.join(evdir, bad), "w").write("{not json")
                 names.append(bad); files.append(None)
             # wait until consumed
-            deadline = time.time() + (40 if slow else 15)
+            deadline = time.time() + (120 if giveup else 40 if slow else 15)
             while time.time() < deadline:
                 left = [n for n in os.listdir(evdir) if n.endswith(".json")]
                 if not left:
@@ -216,6 +305,25 @@ def run(chk):
                 nb = int(t[0])
                 want_batches += [unhx(x) for x in t[1:1 + nb]]
                 dropped += int(t[-1])
+            # what the answers planned for this set let through: a batch is posted until it is accepted, five times at most
+            answers = list(ex["plan"])
+            delivered, given_up = [], []
+            for b in want_batches:
+                for attempt in range(5):
+                    st_ = answers.pop(0) if answers else 200
+                    if st_ == 200:
+                        delivered.append(b)
+                        break
+                else:
+                    given_up.append(b)
+            if given_up:
+                chk.count("batches_given_up_after_five_failures", len(given_up))
+                for b in given_up:
+                    try:
+                        dropped += len(parse_doc(b))
+                    except Exception:
+                        pass
+            want_batches = delivered
             got_ok = [b for b, st in ex["got"] if st == 200]
             got_all = [b for b, st in ex["got"]]
             nev = sum(len(f) for f in ex["files"])
@@ -269,6 +377,7 @@ def run(chk):
         fab.close()
         shutil.rmtree(sd, ignore_errors=True)
     single_reader(chk, binp)
+    shutdown_during_upload(chk, binp)
     for k in ("dropped_oversize", "batches"):
         if chk.counts.get(k, 0) == 0:
             chk.broken.append({"kind": "gate", "name": "generator sanity", "why": f"{k} never exercised"})
